@@ -3,8 +3,8 @@ import Driver.Common
 
 /-! Driver for the `Early` model (C07: requests that arrive before the actor has started).
 
-ops: `case <linked 0|1>` → `ok` · `cast` / `drain` / `stop` / `kill` / `poll ok|err`
-     → `<result> h=[handled] st=<status> r=<reason|->` -/
+ops: `case <linked 0|1> [tl] [ni]` → `ok` · `cast` / `drain` / `stop` / `kill` / `poll ok|err` /
+     `enter` / `leave ok|err` → `<result> h=[handled] st=<status> r=<reason|->` -/
 
 namespace Driver.EarlyD
 open _root_.Early Driver
@@ -41,13 +41,15 @@ def parseOp (w : List String) : Option Op :=
   | ["cast"] => some .cast | ["scast"] => some .cast   -- `scast`: the same cast sent serialized (cluster builds)
   | ["drain"] => some .drain | ["stop"] => some .stop | ["kill"] => some .kill
   | ["poll", "ok"] => some (.poll true) | ["poll", "err"] => some (.poll false)
+  -- `leave`: pre_start, parked at its await point since `enter`, returns
+  | ["leave", "ok"] => some (.poll true) | ["leave", "err"] => some (.poll false)
+  | ["enter"] => some .enter
   | _ => none
 
 def step (ds : DS) (op impl : String) : DS × StepOut :=
   match words op with
-  | ["case", l] => ({ linked := l == "1" }, { model := "ok" })
   -- thread-local flavour: the same model (the start request stays queued in the blocked spawner)
-  | ["case", l, "tl"] => ({ linked := l == "1", prefixKey := "tl" }, { model := "ok" })
+  | "case" :: l :: fl => ({ linked := l == "1", prefixKey := " ".intercalate fl }, { model := "ok" })
   | w =>
     match parseOp w with
     | none => (ds, { model := "bad-op" })
